@@ -866,6 +866,8 @@ def str_strip(e: Engine, st: State, s, attr: str, chars: Optional[str]) -> SV:
 
 
 def str_join(e: Engine, st: State, sep, xs: SV) -> SV:
+    if xs.ty.kind == "small":
+        return SV(STR, z3.String(fresh_name("joined")))
     """sep.join(xs).  Only the separator "" is given a meaning: the result is the ghost
     concatenation cat(xs) (an uninterpreted function of the sequence, related to the text by PART)."""
     r = z3.String(fresh_name("joined"))
@@ -908,6 +910,8 @@ def re_call(e: Engine, st: State, fname: str, args, kw, n) -> SV:
         return SV(STR, re_escape(args[0].v))
     if fname == "finditer":
         return re_finditer(e, st, args[0], args[1])
+    if fname == "compile":
+        return SV(Ty("func"), None, tag=("re_compiled", args[0]))
     if fname == "sub":
         r = SV(STR, z3.String(fresh_name("resub")))
         r.tag = ("resub", args)
@@ -988,6 +992,8 @@ def attr_call(e: Engine, st: State, tag, args, kw, n) -> SV:
     base, attr = tag[1], tag[2]
     if base[0] == "bound" and base[2] == "__dict__" and attr == "values":
         return dict_values_of_metadata(e, st, base[1])
+    if base[0] == "re_compiled" and attr == "finditer":
+        return re_finditer(e, st, base[1], args[0])
     # datetime.now().year / date.today().year
     if base in (("builtin", "datetime"), ("builtin", "date")) and attr in ("now", "today"):
         o = SV(OBJ("datetime"), z3.Const("NOW", Obj))
